@@ -11,6 +11,7 @@ Monitors (DESIGN 3/C04):
 """
 import math
 
+from .. import layout as LY
 from ..oracles import c04_hashtable as HT
 from . import _hashlm as LM
 
@@ -503,6 +504,9 @@ def run_search(mon, case, lm, init, batch, conds, label, warm=None):
     from pydrobert.torch.modules import BeamSearch
 
     search = BeamSearch(lm, case["width"], case["eos"], case["finish_all"], case["pad_value"])
+    # the search object (and the model inside it) after a deepcopy journey; the harness keeps talking to the copy's model
+    search = LY.travelled(search, case["width"], case["V"], 0 if batch is None else batch, pickle_ok=False)
+    lm = search.lm
     if warm is not None:
         _REC["on"] = False
         if hasattr(lm, "begin"):
